@@ -740,6 +740,12 @@ class SymDT:
         return NotImplemented
     def __hash__(self): return 0
     def __repr__(self): return f"SymDT({z3.simplify(self.e)},{self.unit})"
+    def __str__(self):
+        from . import symdt
+        return symdt.iso_text(self.e, self.unit)
+    def strftime(self, fmt):
+        from . import symdt
+        return symdt.StrfToken(self.e, self.unit, fmt)
     def item(self):
         # datetime64('NaT').item() is None; any other value becomes a date / datetime, for which this scalar stands
         # (the codecs write both the same way)
